@@ -15,7 +15,7 @@
 import random
 import struct
 
-from harness import common, runner, peers, fakenet
+from harness import common, runner, peers, fakenet, wire
 from checks import rating, audit
 
 HOST = audit.HOST
@@ -232,6 +232,9 @@ def line_faults(d, rnd, tier):
     # identification strings without a software part (what the probes later read off the first one must cope with there being none)
     for i, line in enumerate((b'SSH-2.0', b'SSH-2.0-', b'SSH-2.0- note', b'SSH-1.99')):
         out.append(('nosoftware%d' % i, (lambda d, line=line: [line + b'\r\n'])))
+    # a protocol version with thousands of digits (numbers that long are refused by the interpreter's own integer conversion)
+    out.append(('hugeversion', lambda d: [b'SSH-2.' + b'1' * 5000 + b'-OpenSSH_9.6\r\n']))
+    out.append(('hugeversion199', lambda d: [b'SSH-1.' + b'9' * 4400 + b'-OpenSSH_9.6\r\n']))
     # well-formed identification strings whose software version is odd: empty components, a lone dot, huge numbers, no digits
     for i, sw in enumerate((b'OpenSSH_8..9p1', b'dropbear_2022..83', b'OpenSSH_.5', b'libssh_0.', b'libssh-0..10.6', b'OpenSSH_99999999999999999999.1', b'OpenSSH_', b'dropbear_',
                             b'OpenSSH_7.4.', b'OpenSSH_1.2.3.4.5.6.7.8.9')):
@@ -295,6 +298,10 @@ def build(tier, rnd):
                 faults = ssh1_faults(data, rnd, tier) + [f for f in packet_faults(data, rnd, tier, dense=(n <= 2)) if f[0] in ('eof', 'stall', 'reset', 'random', 'random+eof') or f[0].startswith('trunc@')]
             else:
                 faults = packet_faults(data, rnd, tier, dense=(n <= 2))
+                if kind == 'gexgroup' and n <= 4:
+                    # a group whose modulus is as long as a packet allows: whatever the tool computes with it is done within its time bound
+                    faults = faults + [('hugegroup%d' % bits, (lambda d, bits=bits: [wire.frame(bytes([31]) + wire.mpint((1 << (bits - 1)) | 0x9f3b1) + wire.mpint(2))]))
+                                       for bits in ((32768, 65536, 262144) if n == 2 else (131072,))]
             if tier == 'quick' and n > 6:
                 # later group-exchange connections repeat the same message shapes: sample them
                 faults = [f for j, f in enumerate(faults) if (j + n) % 4 == 0]
